@@ -25,6 +25,7 @@ def runCase (kind : String) (fields : List String) : List String :=
   | "cli" => Driver.cli fields
   | "repl" => Driver.repl fields
   | "world" => Driver.world fields
+  | "display" => Driver.display fields
   | "gen-selfcheck" => Driver.genSelfcheck fields
   | "gen-text" => Driver.genText fields
   | "gen-data" => Driver.genData fields
